@@ -365,6 +365,53 @@ func c20(r *Run) {
 	c20Operands(r)
 	c20Dates(r)
 	c20TimeAdd(r)
+	c20Chains(r)
+}
+
+// c20Chains: where the result of a numeric / date modifier goes next (a relation on the real engine alone; every
+// single step is judged by the streams above). A chain printed directly, the same chain assigned to a ctx
+// variable and printed, and the chain cut in two by a ctx variable must print the same text: each modifier of
+// a chain receives its own arguments and the previous modifier's result, in a print tag and in a ctx tag alike.
+func c20Chains(r *Run) {
+	type ch struct {
+		head  string
+		steps []string
+		vars  []c20Var
+	}
+	fl := func(name string, f float64) c20Var { return c20Var{Name: name, Kind: "float64", Text: c20Hex(f)} }
+	tm := c20Var{Name: "ts", Kind: "time", Text: c20TimeText(time.Date(2021, 3, 4, 5, 6, 7, 0, time.UTC))}
+	var chains []ch
+	for _, x := range []float64{1.5, -2.25, 14995.6, 0.001, 7} {
+		chains = append(chains,
+			ch{"x", []string{"math::add(2)", "math::mul(10)"}, []c20Var{fl("x", x)}},
+			ch{"x", []string{"math::div(3)", "ceilPrec(2)"}, []c20Var{fl("x", x)}},
+			ch{"x", []string{"math::sub(1)", "math::abs()", "round"}, []c20Var{fl("x", x)}},
+			ch{"x", []string{"roundPrec(3)", "math::mul(y)", "floorPrec(1)"}, []c20Var{fl("x", x), fl("y", 2.5)}},
+			ch{"x", []string{"math::pow(2)", "math::sqrt()", "math::add(y)", "truncPrec(4)"}, []c20Var{fl("x", x), fl("y", -0.125)}},
+			ch{"x", []string{"math::max(y)", "math::min(3)", "math::mod(2)"}, []c20Var{fl("x", x), fl("y", 4)}})
+	}
+	chains = append(chains,
+		ch{"ts", []string{`time::add("90 m")`, "time::date(time::RFC3339)"}, []c20Var{tm}},
+		ch{"ts", []string{`time::add("-3 d")`, `time::add("2 h")`, `time::date("%Y-%m-%d %H:%M")`}, []c20Var{tm}},
+		ch{"ts", []string{`time::add("1 w")`, "time::date(time::Kitchen)"}, []c20Var{tm}})
+	for _, c := range chains {
+		full := c.head + "|" + strings.Join(c.steps, "|")
+		forms := []string{"{%= " + full + " %}", "{% ctx t = " + full + " %}{%= t %}"}
+		for cut := 1; cut < len(c.steps); cut++ {
+			forms = append(forms, "{% ctx t = "+c.head+"|"+strings.Join(c.steps[:cut], "|")+" %}{%= t|"+strings.Join(c.steps[cut:], "|")+" %}")
+		}
+		base := c20Render(forms[0], c.vars)
+		for _, f := range forms[1:] {
+			got := c20Render(f, c.vars)
+			sig := "chain " + f + " " + c20VarsText(c.vars)
+			r.Count(sig, true)
+			r.Dist["chain-forms"]++
+			if got.Panic != "" || got.ErrStr() != base.ErrStr() || string(got.Out) != string(base.Out) {
+				r.Violate(sig, "a chain of numeric / date modifiers gives a different result in a ctx tag than in a print tag",
+					map[string]any{"print_form": forms[0], "ctx_form": f, "vars": c.vars, "print_output": string(base.Out), "ctx_output": string(got.Out), "print_error": base.ErrStr(), "ctx_error": got.ErrStr(), "panic": got.Panic})
+			}
+		}
+	}
 }
 
 // ---------------------------------------------------------------------------------------------
